@@ -330,6 +330,11 @@ func parseInstances(buf []byte) ([]*input.Instance, error) {
 		if x == nil {
 			return nil, errorx.Invalid("instance[%d] is empty", i)
 		}
+		if c := x.Chord; c != nil {
+			if _, ok := c.Degree.Semitone(); !ok {
+				return nil, errorx.Invalid("instance[%d]: chord without a valid degree", i)
+			}
+		}
 	}
 	return r, nil
 }
